@@ -48,6 +48,13 @@ def apply_step(obj, st, via):
             info["printed"] = out
     elif a == "refine":
         _quiet(operations.refine_knotvector, obj, list(st["dens"]))
+    elif a == "refine_helper":
+        from geomdl import helpers
+        cpts = obj.ctrlptsw if obj.rational else obj.ctrlpts
+        new_cpts, new_kv = helpers.knot_refinement(obj.degree, obj.knotvector, cpts, knot_list=[float(fr(x)) for x in st["kl"]],
+                                                   add_knot_list=[float(fr(x)) for x in st["add"]], density=st["dens"])
+        obj.set_ctrlpts(new_cpts)
+        obj.knotvector = new_kv
     else:
         raise ValueError("unknown action " + a)
     return info
